@@ -237,8 +237,17 @@ pub fn run(tier: Tier) -> i32 {
                 .filter_map(|(_, v)| serde_json::from_str::<String>(v).ok())
                 .collect();
             rep.count("positioned_values", raws.len() as u64);
-            par_for_chunked(raws.len() * POSITIONS.len(), 16, |w, i| {
-                let raw = &raws[i / POSITIONS.len()];
+            // .. in a project without namespaces, and in one with two namespaces (values as written, and with the
+            // references addressed as `one:<key>`)
+            let mut cases: Vec<(String, bool)> = raws.iter().map(|r| (r.clone(), false)).collect();
+            for r in &raws {
+                cases.push((r.clone(), true));
+                if r.contains("$t(") {
+                    cases.push((r.replace("$t(", "$t(one:"), true));
+                }
+            }
+            par_for_chunked(cases.len() * POSITIONS.len(), 16, |w, i| {
+                let (raw, namespaced) = &cases[i / POSITIONS.len()];
                 let pos = POSITIONS[i % POSITIONS.len()];
                 let q = json_string(raw, false);
                 let mut p = file_project("\"plain\"");
@@ -268,7 +277,19 @@ pub fn run(tier: Tier) -> i32 {
                     }
                 }
                 p.files.get_mut(&(None, "en".to_string())).unwrap().extend(extra);
-                *current[w].lock().unwrap() = format!("{pos}: {q}");
+                if *namespaced {
+                    let mut cfg = p.cfg.clone();
+                    cfg.namespaces = Some(vec!["one".to_string(), "two".to_string()]);
+                    let mut q2 = Project::new(cfg);
+                    for ((_, loc), e) in &p.files {
+                        // (the base project's own reference must name its namespace, or every load ends on it)
+                        let e: Vec<(String, Val)> = e.iter().map(|(k, v)| if k == "b" { (k.clone(), s(vec![fk("one:a")])) } else { (k.clone(), v.clone()) }).collect();
+                        q2.set_file(Some("one"), loc, e.clone());
+                        q2.set_file(Some("two"), loc, vec![("z".to_string(), st("[z]")), ("zp_one".to_string(), st("one")), ("zp_other".to_string(), s(vec![fk("one:a")]))]);
+                    }
+                    p = q2;
+                }
+                *current[w].lock().unwrap() = format!("{pos}{}: {q}", if *namespaced { " (namespaced)" } else { "" });
                 watch.begin(w);
                 let o = run_project(&p, &scratch.worker(w), default_opts());
                 watch.end(w);
@@ -414,7 +435,7 @@ pub fn run(tier: Tier) -> i32 {
     rep.sample(json!({"file_value": "[\"f32\", [\"x{{count}}\", \"NaN..=inf\"], [\"y\"]]"}));
     rep.sample(json!({"file_value": "\"pre $t(a, {\\\"x\\\": \\\"$t(k)\\\"}) post\""}));
     let mut cov = serde_json::Map::new();
-    cov.insert("rule".into(), json!(format!("(1) every string of <= {} tokens over {:?} through ParsedValue::new (+reduce when no foreign key is left); (2) every such string of <= {} tokens as a value in a real file through parse_locales (project also holds a, b=$t(a), count, p_one/p_other so references can resolve); (2b) the foreign-key forms of (5) and the short token strings again in 9 positions (plural `_one` / `_other` / a middle form, ordinal `_other`, range branch and fallback, nested subkey, a non-default locale, an argument of a foreign key); (3) every range count of <= {} tokens over 13 spec tokens for i8,u8,f32,u64 and every JSON number class as count and as literal foreign-key count; (4) all small JSON values of depth <= {} in value position; (5) 13 targets x 13 argument texts x 4 positions of $t; (6) 20 whole-file contents and 7 missing/garbled project pieces; (7) nesting / length 1..2000 of 12 constructs and foreign-key chains, each in a subprocess on an 8 MiB stack; oracle: Ok or Err with non-empty message, no panic, no crash, every case within 20 s (deep: 60 s)", tier.pick(5, 6), TOKENS, tier.pick(3, 4), tier.pick(3, 4), tier.pick(2, 3))));
+    cov.insert("rule".into(), json!(format!("(1) every string of <= {} tokens over {:?} through ParsedValue::new (+reduce when no foreign key is left); (2) every such string of <= {} tokens as a value in a real file through parse_locales (project also holds a, b=$t(a), count, p_one/p_other so references can resolve); (2b) the foreign-key forms of (5) and the short token strings again in 9 positions (plural `_one` / `_other` / a middle form, ordinal `_other`, range branch and fallback, nested subkey, a non-default locale, an argument of a foreign key), each in a project without namespaces and in one with two namespaces (references as written and addressed as `one:<key>`); (3) every range count of <= {} tokens over 13 spec tokens for i8,u8,f32,u64 and every JSON number class as count and as literal foreign-key count; (4) all small JSON values of depth <= {} in value position; (5) 13 targets x 13 argument texts x 4 positions of $t; (6) 20 whole-file contents and 7 missing/garbled project pieces; (7) nesting / length 1..2000 of 12 constructs and foreign-key chains, each in a subprocess on an 8 MiB stack; oracle: Ok or Err with non-empty message, no panic, no crash, every case within 20 s (deep: 60 s)", tier.pick(5, 6), TOKENS, tier.pick(3, 4), tier.pick(3, 4), tier.pick(2, 3))));
     cov.insert("exhaustive".into(), json!(true));
     cov.insert("outcome_classes".into(), json!(*classes.lock().unwrap()));
     cov.insert("front_end".into(), json!(build_format().name()));
